@@ -207,7 +207,9 @@ class HPAngle(object):
         :param hp_angle: float HP angle
         """
         self.hp_angle = float(hp_angle)
-        hp_dec_str = f'{self.hp_angle:.13f}'.split('.')[1]
+        # from 512 degrees a double no longer carries 13 decimals faithfully
+        ndec = 13 if abs(self.hp_angle) < 512 else 12
+        hp_dec_str = f'{self.hp_angle:.{ndec}f}'.split('.')[1]
         if int(hp_dec_str[0]) > 5:
             raise ValueError(f'Invalid HP Notation: 1st decimal place greater '
                              f'than 5: {self.hp_angle}')
@@ -1044,7 +1046,9 @@ def hp2dec(hp):
     """
     # Check if 1st and 3rd decimal place greater than 5 (invalid HP Notation)
     hp = float(hp)
-    hp_deg_str, hp_mmss_str = f'{hp:.13f}'.split('.')
+    # from 512 degrees a double no longer carries 13 decimals faithfully
+    ndec = 13 if abs(hp) < 512 else 12
+    hp_deg_str, hp_mmss_str = f'{hp:.{ndec}f}'.split('.')
     if int(hp_mmss_str[0]) > 5:
         raise ValueError(f'Invalid HP Notation: 1st decimal place greater '
                          f'than 5: {hp}')
